@@ -13,6 +13,7 @@
  *                           call runs mtd_dtor; hook calls are dead afterwards)
  *   CLOSE                   close the message pipe as mcount_trace_finish() of another thread does (mcount_pfd = -1)
  *   TEND                    mtd_dtor(&mtd): what the TSD destructor does at a normal thread end
+ *   EXEC <script2>          execv() of this program with another script: a second traced image in the same task
  *   SEGV                    raise(SIGSEGV)   (libmcount's segv_handler flushes the open calls)
  *   ABRT                    abort()
  *   EXIT                    _exit(0)
@@ -60,7 +61,8 @@ static void (*const funcs[])(void) = { f0, f1, f2,  f3,	 f4,  f5,  f6,	f7,
 extern int mcount_entry(unsigned long *parent_loc, unsigned long child, struct mcount_regs *regs);
 extern unsigned long mcount_exit(long *retval);
 
-enum { OP_E, OP_X, OP_S, OP_SEGV, OP_ABRT, OP_EXIT, OP_END, OP_SIG, OP_CLOSE, OP_TEND };
+enum { OP_E, OP_X, OP_S, OP_SEGV, OP_ABRT, OP_EXIT, OP_END, OP_SIG, OP_CLOSE, OP_TEND, OP_EXEC };
+static char exec_script[512];
 extern TLS struct mcount_thread_data mtd;
 struct sop {
 	int kind, k;
@@ -113,6 +115,10 @@ int main(int argc, char **argv)
 			o->kind = OP_CLOSE;
 		else if (!strcmp(op, "TEND"))
 			o->kind = OP_TEND;
+		else if (!strcmp(op, "EXEC")) {
+			o->kind = OP_EXEC;
+			sscanf(line, "%*s %511s", exec_script);
+		}
 		else
 			continue;
 		nops++;
@@ -170,6 +176,11 @@ int main(int argc, char **argv)
 			mtd_dtor(&mtd);
 			finished = 2;
 			break;
+		case OP_EXEC: {
+			char *a[] = { argv[0], exec_script, NULL };
+			execv(argv[0], a);
+			_exit(92);
+		}
 		case OP_SEGV:
 			raise(SIGSEGV);
 			_exit(91);
